@@ -1,5 +1,5 @@
 (* C13 property theorems: statements + `exact lemma` only. *)
-From CJ Require Import Common.Base C13.Model C13.Proofs C13.ProofsV.
+From CJ Require Import Common.Base C13.Model C13.Proofs C13.ProofsV C13.ModelS C13.ProofsS C13.ModelR C13.ProofsR C13.ExamplesS C13.ExamplesR.
 Local Open Scope nat_scope.
 
 (* For ANY number of threads whose traces satisfy the boolean wf, no reachable configuration
@@ -66,3 +66,109 @@ Theorem C13_code_reloads_take_effect : forall v reqs m f c,
   reach (code_cfg v reqs m f) c -> all_done c = true -> ver c = v + m.
 Proof. exact code_reloads_take_effect. Qed.
 Print Assumptions C13_code_reloads_take_effect.
+
+(* ================= the selector as a shared object (ModelS.v) ================= *)
+
+(* Every schedule of the object model is a schedule of the lock model: all theorems above apply. *)
+Theorem C13_object_model_projects : forall c c', sreach c c' -> reach (base c) (base c').
+Proof. exact sreach_base. Qed.
+Print Assumptions C13_object_model_projects.
+
+(* No interleaving of requests, reloads (load file, lock, swap, unlock) and file replacements blocks. *)
+Theorem C13_object_model_deadlock_free : forall v p0 x0 tr c, swf tr = true -> sreach (sinit v p0 x0 tr) c ->
+  all_done (base c) = true \/ exists i c', sstep c i = Some c'.
+Proof. exact s_deadlock_free. Qed.
+Print Assumptions C13_object_model_deadlock_free.
+
+(* When every reload builds a fresh object, a thread that takes the read lock once reads, at all of
+   its selections, ONE object holding ONE subnet set - for any threads, any number of reloads of any
+   paths, any file replacements, any interleaving. *)
+Theorem C13_one_set_in_full : forall v p0 x0 tr c j l0 t,
+  swf tr = true -> forallb no_inplace tr = true ->
+  sreach (sinit v p0 x0 tr) c ->
+  nth_error tr j = Some l0 -> count_rlock (map erase l0) <= 1 ->
+  nth_error (sthreads c) j = Some t ->
+  exists o x, nth_error (heap (st c)) o = Some x /\
+              forall ob, In ob (slog t) -> snd (fst ob) = o /\ snd ob = x.
+Proof. exact one_set_in_full. Qed.
+Print Assumptions C13_one_set_in_full.
+
+(* That set is a whole file generation: the initial file's or one the operator published. *)
+Theorem C13_observed_sets_are_file_generations : forall v p0 x0 tr c j t ob,
+  forallb no_inplace tr = true -> sreach (sinit v p0 x0 tr) c ->
+  nth_error (sthreads c) j = Some t -> In ob (slog t) -> In (snd ob) (pool x0 tr).
+Proof. exact observed_sets_are_file_generations. Qed.
+Print Assumptions C13_observed_sets_are_file_generations.
+
+(* The code: k requests of any kinds, reloads of any paths (the same path or different ones), f reloads
+   whose file does not parse, any number of operators replacing files. *)
+Theorem C13_code_objects_deadlock_free : forall v p0 x0 reqs paths f writers c,
+  sreach (sinit v p0 x0 (scode_traces reqs paths f writers)) c ->
+  all_done (base c) = true \/ exists i c', sstep c i = Some c'.
+Proof. exact scode_deadlock_free. Qed.
+Print Assumptions C13_code_objects_deadlock_free.
+
+Theorem C13_code_request_one_set : forall v p0 x0 reqs paths f writers c j t,
+  sreach (sinit v p0 x0 (scode_traces reqs paths f writers)) c -> j < length reqs ->
+  nth_error (sthreads c) j = Some t ->
+  exists o x, nth_error (heap (st c)) o = Some x /\ In x (pool x0 (scode_traces reqs paths f writers)) /\
+              forall ob, In ob (slog t) -> snd (fst ob) = o /\ snd ob = x.
+Proof. exact scode_request_one_set. Qed.
+Print Assumptions C13_code_request_one_set.
+
+(* The statement is FALSE when a reload refreshes the cached object of its path in place (all other
+   hypotheses kept): a witness schedule mixes set 0 (IPv4) with set 1 (IPv6) under one read lock. *)
+Theorem C13_inplace_refresh_refuted :
+  ~ (forall v p0 x0 tr c j l0 t, swf tr = true ->
+       sreach (sinit v p0 x0 tr) c -> nth_error tr j = Some l0 -> count_rlock (map erase l0) <= 1 ->
+       nth_error (sthreads c) j = Some t ->
+       exists o x, nth_error (heap (st c)) o = Some x /\ forall ob, In ob (slog t) -> snd (fst ob) = o /\ snd ob = x).
+Proof. exact one_set_in_full_needs_fresh_objects. Qed.
+Print Assumptions C13_inplace_refresh_refuted.
+
+(* ================= the reload as main.go performs it (ModelR.v) ================= *)
+
+(* For ANY handler program that passes the executable test handler_ok (it never hands a front end a
+   generation the installed set lacks, and only installs supersets), any requests, any interleaving:
+   the registrar stays consistent, and every request that the front end moved to the registrar's
+   generation, or whose generation the registrar knew from the start, is answered. *)
+Theorem C13_reload_sequence_safe : forall s todo reqs y,
+  mem (r_api s) (r_gens s) = true -> handler_ok (r_gens s) None todo = true ->
+  yreach (mkSys s None todo (map (fun r => newq (fst r) (snd r)) reqs)) y ->
+  mem (r_api (y_st y)) (r_gens (y_st y)) = true /\
+  forall i q ok set g' cc, nth_error (y_reqs y) i = Some q -> q_phase q = QDone ok set g' cc ->
+    (mem (q_gen q) (r_gens s) = true \/ (q_dns q = false /\ cc <> None)) -> ok = true.
+Proof. exact reload_sequence_safe. Qed.
+Print Assumptions C13_reload_sequence_safe.
+
+(* main.go's order (parse, ReloadSubnets, NewClientConf, UpdateLatestCCGen), any number of reloads,
+   under the publication hypothesis chain_ok. *)
+Theorem C13_pinned_order_safe : forall s pubs reqs y,
+  mem (r_api s) (r_gens s) = true -> chain_ok (r_gens s) pubs = true ->
+  yreach (yinit s pinned_order pubs reqs) y ->
+  mem (r_api (y_st y)) (r_gens (y_st y)) = true /\
+  forall i q ok set g' cc, nth_error (y_reqs y) i = Some q -> q_phase q = QDone ok set g' cc ->
+    (mem (q_gen q) (r_gens s) = true \/ (q_dns q = false /\ cc <> None)) -> ok = true.
+Proof. exact pinned_order_safe. Qed.
+Print Assumptions C13_pinned_order_safe.
+
+(* The same statement is FALSE for the swapped order (front ends first, ReloadSubnets last). *)
+Theorem C13_swapped_order_refuted :
+  ~ (forall s pubs reqs y, mem (r_api s) (r_gens s) = true -> chain_ok (r_gens s) pubs = true ->
+       yreach (yinit s swapped_order pubs reqs) y ->
+       forall i q ok set g' cc, nth_error (y_reqs y) i = Some q -> q_phase q = QDone ok set g' cc ->
+         (mem (q_gen q) (r_gens s) = true \/ (q_dns q = false /\ cc <> None)) -> ok = true).
+Proof. exact swapped_order_refuted. Qed.
+Print Assumptions C13_swapped_order_refuted.
+
+(* Nothing in the reload sequence blocks, and every schedule is finite. *)
+Theorem C13_reload_sequence_never_blocked : forall y,
+  (y_todo y <> [] -> exists y', ystep y 0 = Some y') /\
+  (forall i q, nth_error (y_reqs y) i = Some q -> (forall ok s g cc, q_phase q <> QDone ok s g cc) ->
+     exists y', ystep y (S i) = Some y').
+Proof. exact (fun y => conj (handler_never_blocked y) (request_never_blocked y)). Qed.
+Print Assumptions C13_reload_sequence_never_blocked.
+
+Theorem C13_reload_sequence_terminates : forall y a y', ystep y a = Some y' -> S (ymeasure y') = ymeasure y.
+Proof. exact ystep_measure. Qed.
+Print Assumptions C13_reload_sequence_terminates.
